@@ -62,7 +62,7 @@ Section U.
     match spc_ s with
     | SLoop => now s = base s \/ (now s = base s + keepalive /\ q s <> [])
     | SWait dl => dl = base s + keepalive /\ base s <= now s <= dl
-    | SGot _ | SLog _ | SLock _ | SWrite _ => base s <= now s <= base s + keepalive
+    | SGot _ | SChk _ | SLog _ | SLock _ | SWrite _ => base s <= now s <= base s + keepalive
     | SPutKA => now s = base s + keepalive
     | SUnlock | SSleepStart => now s + spacing = base s
     | SSleep u => u = base s /\ now s <= u
